@@ -74,7 +74,7 @@ func structBases() (map[string][]int, []int) {
 	return famBases, tlsBases
 }
 
-var structFamilies = []string{"rfc-br-dns", "san-ian", "subject-issuer", "aia", "validity", "name-length", "onion", "rsa-key", "smime-subject", "cdp"}
+var structFamilies = []string{"rfc-br-dns", "san-ian", "subject-issuer", "aia", "validity", "name-length", "onion", "rsa-key", "smime-subject", "cdp", "eku-ku"}
 
 var latestEffective = time.Date(2024, 6, 1, 0, 0, 0, 0, time.UTC) // after every pair member's effective date
 
@@ -241,6 +241,19 @@ func drawStructured(rt *rapid.T, fam string) (structCert, bool) {
 			v.SetPolicies([]int{2, 23, 140, 1, 1})
 			desc = append(desc, "policy:EV")
 		}
+	case "eku-ku":
+		// extended key usage x key usage: 1-3 key purposes and a key usage of 0-4 named bits (any of the nine)
+		var ekus [][]int
+		for i, n := 0, rapid.IntRange(1, 3).Draw(rt, "neku"); i < n; i++ {
+			ekus = append(ekus, gen.AllEKUs[rapid.IntRange(0, len(gen.AllEKUs)-1).Draw(rt, "eku")])
+		}
+		v.SetEKU(ekus...)
+		var bits uint16
+		for i, n := 0, rapid.IntRange(0, 4).Draw(rt, "nbits"); i < n; i++ {
+			bits |= 1 << uint(15-rapid.IntRange(0, 8).Draw(rt, "bit"))
+		}
+		v.SetExt([]int{2, 5, 29, 15}, rapid.Bool().Draw(rt, "kucrit"), gen.KeyUsageBits(bits))
+		desc = append(desc, fmt.Sprintf("ekus=%v keyUsage=%016b", ekus, bits))
 	case "cdp":
 		// cRLDistributionPoints from its grammar: 1-3 DistributionPoints, each with any subset of
 		// distributionPoint (fullName of URIs / directoryName, or nameRelativeToCRLIssuer), reasons and cRLIssuer
